@@ -4,6 +4,7 @@ use std::str::from_utf8;
 //@ include prelude/error_types.rs
 //@ include prelude/crypto.rs
 //@ include spec/uri.rs
+//@ include spec/headers.rs
 //@ include prelude/hex.rs
 //@ include contracts/elements.rs
 //@ include prelude/tail.rs
